@@ -57,7 +57,7 @@ def _strip(results: list) -> list:
 
 def pmap(fn: Callable[[Any, Any], Any], jobs: list, min_parallel: int = 24) -> list:
     """fn(program, job) -> picklable result; order of results = order of jobs."""
-    workers = min(16, os.cpu_count() or 1)
+    workers = min(int(os.environ.get("JSTAT_WORKERS", "16")), os.cpu_count() or 1)
     if os.environ.get("JSTAT_SERIAL") or workers <= 1 or len(jobs) < min_parallel:
         prog = program()
         return _strip([_safe(fn, prog, j) for j in jobs])
